@@ -1,7 +1,7 @@
 (* C09 -- data records round-trip, stay 256-aligned, corruption is detected.
-   Property theorems only; proofs live in proofs/RecordProofs.v. *)
+   Property theorems only; proofs live in proofs/RecordProofs.v and proofs/RecordResync.v. *)
 From Coq Require Import NArith ZArith List Bool String.
-From GB Require Import Consts Words Hash Record RecordProofs CheckC09.
+From GB Require Import Consts Words Hash Record RecordProofs RecordResync CheckC09.
 Import ListNotations.
 Open Scope N_scope.
 
@@ -34,6 +34,22 @@ Theorem C09_read_at_sound : forall c s r, read_at c s = RdOK r ->
 Proof. exact read_at_sound. Qed.
 Print Assumptions C09_read_at_sound.
 
+(* RESYNCHRONISATION: a file made of intact records rs1, a damaged region of n >= 1 whole 256-byte blocks, and intact
+   records rs2.  If no block of the damaged region parses as a record (damage is detected at every block: C09_read_at_sound
+   says what a successful parse would need) and the FIRST damaged header fails in a contained way -- key size or value
+   size out of range, or checksum mismatch with sizes that stay inside the file (not EBody: a size field claiming an
+   extent past the end of the file, which is finding F2 below) -- then the sequential scan yields every record of rs1,
+   skips exactly the damaged region, and yields EVERY record of rs2 at its true offset (the first one carrying the
+   number of skipped bytes), ending without error.  For ALL record lists, ALL damaged contents, ALL n. *)
+Theorem C09_scan_resyncs : forall c rs1 bad rs2 n e0,
+  Forall (valid_rec c) rs1 -> Forall (valid_rec c) rs2 -> (1 <= n)%nat -> lenN bad = 256 * N.of_nat n ->
+  let s := bad ++ List.concat (map encode rs2) in
+  read_at c s = RdErr e0 -> contained e0 ->
+  (forall i, (i < n)%nat -> exists e, read_at c (dropN (256 * N.of_nat i) s) = RdErr e) ->
+  scan_file c (List.concat (map encode rs1) ++ s) 0 = (with_offsets rs1 0 ++ after_damage rs2 (rsum rs1) (256 * N.of_nat n), ScanOK).
+Proof. exact scan_file_resync. Qed.
+Print Assumptions C09_scan_resyncs.
+
 (* The scan clause of the property ("still yields every intact record after the damage") is
    REFUTED for the code as it stands (finding F2): a damaged value-size field that stays within
    the size limit but claims an extent past the end of the file makes the scan stop with an
@@ -63,3 +79,14 @@ Print Assumptions C09_scan_huge_vsz_refuted.
 Example C09_valid_rec_example :
   valid_rec (mkRcfg 250 1048576) (mkRec (lcg_bytes 250 3) (lcg_bytes 700 5) 4294967295 (-2147483648)%Z 4294967295).
 Proof. vm_compute. intuition discriminate. Qed.
+
+(* non-vacuity of C09_scan_resyncs: record 1 of five gets one key byte flipped (checksum mismatch, contained); the scan
+   yields records 0, 2, 3, 4 with their true offsets *)
+Definition rs_bad : bytes := damage (encode (nth 1 f2_recs (mkRec [] [] 0 0%Z 0))) [(26, 255)] (-1)%Z.
+Example C09_resync_example :
+  lenN rs_bad = 256 * N.of_nat 1 /\
+  read_at f2_cfg (rs_bad ++ List.concat (map encode (skipn 2 f2_recs))) = RdErr ECrc /\
+  scan_file f2_cfg (List.concat (map encode (firstn 1 f2_recs)) ++ rs_bad ++ List.concat (map encode (skipn 2 f2_recs))) 0 =
+    ([(0, nth 0 f2_recs (mkRec [] [] 0 0%Z 0), 0); (512, nth 2 f2_recs (mkRec [] [] 0 0%Z 0), 256);
+      (768, nth 3 f2_recs (mkRec [] [] 0 0%Z 0), 0); (1024, nth 4 f2_recs (mkRec [] [] 0 0%Z 0), 0)], ScanOK).
+Proof. split; [|split]; vm_compute; reflexivity. Qed.
